@@ -377,7 +377,7 @@ func c07Configs(tier string) []*xplore.Config {
 		full          bool
 		hd, sd        int
 	}
-	cfs := []cf{{1, 1, false, 4, 14}, {1, 2, false, 3, 0}}
+	cfs := []cf{{1, 1, false, 4, 14}, {1, 2, false, 3, 0}, {1, 1, true, 3, 0}} // the last: all 16 action pairs, shallow
 	if tier == "thorough" {
 		cfs = []cf{{1, 1, false, 5, 20}, {1, 2, true, 4, 0}, {1, 2, false, 4, 20}, {2, 1, false, 3, 0}}
 	}
